@@ -349,6 +349,10 @@ ARGS_LOOP:
 		// different level. It is as if it was ignoring getoptions.Pass.
 		if optPair, is := isOption(iterator.Value(), mode, false); is {
 
+			// The token itself. The iterator moves on when an option bundled in the
+			// token takes its values, the rest of the bundle still belongs to this token.
+			entry := iterator.Value()
+
 			// an unknown token is passed through once, no matter how many unknown options it bundles
 			passedThrough := false
 
@@ -358,7 +362,7 @@ ARGS_LOOP:
 				optionMatches := getAliasNameFromPartialEntry(currentProgramNode, p.Option)
 				if len(optionMatches) > 1 {
 					sort.Strings(optionMatches)
-					err := fmt.Errorf(text.ErrorAmbiguousArgument, iterator.Value(), optionMatches)
+					err := fmt.Errorf(text.ErrorAmbiguousArgument, entry, optionMatches)
 					return currentProgramNode, []string{}, err
 				}
 
@@ -368,7 +372,7 @@ ARGS_LOOP:
 						break ARGS_LOOP
 					}
 					// TODO: This shouldn't append new children but update existing ones and isOption needs to be able to check if the option expects a follow up argument.
-					opt := newUnknownCLIOption(currentProgramNode, p.Option, iterator.Value(), p.Args...)
+					opt := newUnknownCLIOption(currentProgramNode, p.Option, entry, p.Args...)
 					currentProgramNode.UnknownOptions = append(currentProgramNode.UnknownOptions, opt)
 
 					if passedThrough {
@@ -378,12 +382,12 @@ ARGS_LOOP:
 
 					switch currentProgramNode.unknownMode {
 					case Pass, Warn:
-						currentProgramNode.ChildText = append(currentProgramNode.ChildText, iterator.Value())
+						currentProgramNode.ChildText = append(currentProgramNode.ChildText, entry)
 					case Fail:
 						// The unknown mode that decides is the one of the command the parse ends in.
 						// If that command passes unknown options through, don't lose the ones given before it.
 						if completionMode == "" {
-							currentProgramNode.ChildText = append(currentProgramNode.ChildText, iterator.Value())
+							currentProgramNode.ChildText = append(currentProgramNode.ChildText, entry)
 						}
 					}
 					continue
